@@ -15,6 +15,30 @@ pub struct SourceFileAst {
     pub ast: ast::File,
 }
 
+/// The names the files give to their items (functions, types, variants, traits): what generated
+/// names have to stay apart from.
+pub fn declared_item_names(files: &[SourceFileAst]) -> Vec<String> {
+    let mut names = Vec::new();
+    for file in files {
+        for item in file.ast.toplevels.iter() {
+            match item {
+                ast::Item::Fn(f) => names.push(f.name.0.clone()),
+                ast::Item::StructDef(d) => names.push(d.name.0.clone()),
+                ast::Item::EnumDef(d) => {
+                    names.push(d.name.0.clone());
+                    names.extend(d.variants.iter().map(|(variant, _)| variant.0.clone()));
+                }
+                ast::Item::TraitDef(d) => names.push(d.name.0.clone()),
+                ast::Item::ExternGo(e) => names.push(e.goml_name.0.clone()),
+                ast::Item::ExternType(e) => names.push(e.goml_name.0.clone()),
+                ast::Item::ExternBuiltin(e) => names.push(e.name.0.clone()),
+                ast::Item::ImplBlock(_) => {}
+            }
+        }
+    }
+    names
+}
+
 #[derive(Debug, Clone, PartialEq, Eq, Hash, serde::Serialize, serde::Deserialize)]
 pub struct PackageName(pub String);
 
